@@ -89,6 +89,24 @@ CHECKS["C02"] = dict(
     ref="DESIGN.md section 7 C02",
 )
 
+CHECKS["C08"] = dict(
+    module="Replication",
+    technique="TLA+ model checking of the transcribed replication handshake/round protocol under all fault placements (TLC, safety + resync liveness) + trace validation of the real remoteReplicator, partitions and queues driven step by step with injected faults",
+    text=("Replication.tla transcribes IsReady branch by branch, the follower's append-only-at-next-index rule and the "
+          "leader's ack rule; TLC explores every placement of send/receive/RPC failures, follower restart, follower "
+          "log loss, leader restart and GC (safety invariants PositionalEquality, NoHoles, AckImpliesAppended, "
+          "NoSilentSkip, action property AckOnlyAppended, liveness Resync under weak fairness). The real "
+          "remoteReplicator talks to a real follower Partition through an in-process client with fault injection, one "
+          "replica-loop iteration at a time; after every step both logs and all indexes must equal the model and the "
+          "invariants are evaluated on every state of every recorded history. Histories with a leader that lost its log "
+          "tail violate the property in the real code: recorded as known findings, re-confirmed on every run both in the "
+          "model (tail-loss configuration must produce a counterexample) and on the code."),
+    note=("Trusted: TLC, Json module, the in-process transport (RPC bodies copied from app/storage/rpc/replica.go), "
+          "fake shard/family/state-manager objects that only supply names. IsReady+Connect is one step; "
+          "offline/online notifications not driven; one follower."),
+    ref="DESIGN.md section 7 C08",
+)
+
 NOT_YET = {
 }
 
